@@ -8,6 +8,27 @@ import PosterModel.CtxRun
 
 namespace Poster
 
+namespace World
+
+/-- the common tail of every `ContextHandle` method: `sender.unbounded_send(msg)?; receiver.await` -/
+def sendAwait (w : World) (m : Msg) (id s : Nat) (k : Wait) : World :=
+  match w.sendMsg m with
+  | none => w.finishOp id (.err .contextExited)
+  | some w => w.awaitSlot id s k
+
+/-- channel `ch` has an entry whose sending half is gone -/
+def noSender (w : World) (ch : Nat) : Prop := ∃ c0, (ch, c0) ∈ w.chans ∧ c0.txAlive = false
+
+/-- `pollStream` applied `n` times to the same stream -/
+def pollStreamN (w : World) (id : Nat) : Nat → World
+  | 0 => w
+  | n+1 => pollStreamN (w.pollStream id) id n
+
+end World
+
+namespace User
+open World
+
 /-! ### association lists -/
 
 theorem lookupFirst_setAssoc_self {β} (k : Nat) (v : β) (l : List (Nat × β)) :
@@ -132,8 +153,6 @@ theorem lookupFirst_eraseFirst_self {β} (k : Nat) (l : List (Nat × β)) (hn : 
     exact ⟨hpre, hn.2.1.1⟩
   · next h => rw [lookupFirst_eq_removeFirst, h]; rfl
 
-namespace World
-
 /-! ### record shapes -/
 
 theorem wake_shape (w : World) (t : Task) : ∃ wk, w.wake t = { w with woken := wk } := by
@@ -143,7 +162,7 @@ theorem wake_shape (w : World) (t : Task) : ∃ wk, w.wake t = { w with woken :=
 
 theorem senderGone_shape (w : World) : ∃ wk qr, w.senderGone = { w with woken := wk, queueReg := qr } := by
   unfold senderGone; split
-  · obtain ⟨wk, h⟩ := w.wake_shape .ctx
+  · obtain ⟨wk, h⟩ := wake_shape w .ctx
     exact ⟨wk, false, by rw [h]⟩
   · exact ⟨w.woken, w.queueReg, rfl⟩
 
@@ -151,7 +170,7 @@ theorem finishOp_shape (w : World) (id : Nat) (r : DoneRes) :
     ∃ wk qr, w.finishOp id r =
       { w with ops := eraseFirst id w.ops, out := w.out ++ [.done id r], woken := wk, queueReg := qr } := by
   unfold finishOp
-  obtain ⟨wk, qr, h⟩ := (({ w with ops := eraseFirst id w.ops }).emit (.done id r)).senderGone_shape
+  obtain ⟨wk, qr, h⟩ := senderGone_shape (({ w with ops := eraseFirst id w.ops }).emit (.done id r))
   exact ⟨wk, qr, by rw [h]; rfl⟩
 
 theorem sendMsg_none (w : World) (m : Msg) (h : w.hasCtx = false) : w.sendMsg m = none := by
@@ -163,15 +182,9 @@ theorem sendMsg_shape (w : World) (m : Msg) (h : w.hasCtx = true) :
   have hh : (!w.hasCtx) = false := by simp [h]
   simp only [hh, Bool.false_eq_true, if_false]
   split
-  · obtain ⟨wk, e⟩ := ({ w with queue := w.queue ++ [m] } : World).wake_shape .ctx
+  · obtain ⟨wk, e⟩ := wake_shape ({ w with queue := w.queue ++ [m] } : World) .ctx
     exact ⟨wk, false, by rw [e]⟩
   · exact ⟨w.woken, w.queueReg, rfl⟩
-
-/-- the common tail of every `ContextHandle` method: `sender.unbounded_send(msg)?; receiver.await` -/
-def sendAwait (w : World) (m : Msg) (id s : Nat) (k : Wait) : World :=
-  match w.sendMsg m with
-  | none => w.finishOp id (.err .contextExited)
-  | some w => w.awaitSlot id s k
 
 theorem sendAwait_no_ctx (w : World) (m : Msg) (id s : Nat) (k : Wait) (h : w.hasCtx = false) :
     w.sendAwait m id s k = w.finishOp id (.err .contextExited) := by
@@ -260,5 +273,209 @@ theorem startOp_ping (w : World) (id : Nat) :
 theorem startOp_disconnect (w : World) (id : Nat) (t : DisconnectTx) :
     w.startOp id (.disconnect t) = w.sendAwait (.ff t.encode (2 * id)) id (2 * id) .ff := rfl
 
-end World
+/-! ### subscription channels -/
+
+theorem mem_setAssoc {β} {k k0 : Nat} {v v0 : β} {l : List (Nat × β)} (h : (k, v) ∈ setAssoc k0 v0 l) :
+    (k, v) = (k0, v0) ∨ (k, v) ∈ l := by
+  induction l with
+  | nil => simp [setAssoc] at h; left; simp [h]
+  | cons hd t ih =>
+    obtain ⟨a, b⟩ := hd
+    by_cases hk : a = k0
+    · simp only [setAssoc, hk, if_true, List.mem_cons] at h
+      rcases h with h | h
+      · left; exact h
+      · right; exact List.mem_cons_of_mem _ h
+    · simp only [setAssoc, hk, if_false, List.mem_cons] at h
+      rcases h with h | h
+      · right; rw [h]; exact List.mem_cons_self
+      · rcases ih h with h | h
+        · left; exact h
+        · right; exact List.mem_cons_of_mem _ h
+
+theorem deliver_none (w : World) (c : Nat) (p : PublishRx) (h : w.chan c = none) : w.deliver c p = w := by
+  simp [deliver, h]
+
+theorem deliver_shape (w : World) (c : Nat) (p : PublishRx) (ch : Chan) (h : w.chan c = some ch) :
+    ∃ wk, w.deliver c p =
+      { w with chans := setAssoc c { ch with buf := ch.buf ++ [p], reg := false } w.chans, woken := wk } := by
+  simp only [deliver, h]
+  split
+  · obtain ⟨wk, e⟩ := wake_shape (w.setChan c { ch with buf := ch.buf ++ [p], reg := false }) (.st c)
+    exact ⟨wk, by rw [e]; rfl⟩
+  · exact ⟨w.woken, rfl⟩
+
+theorem dropChanTx_none (w : World) (c : Nat) (h : w.chan c = none) : w.dropChanTx c = w := by
+  simp [dropChanTx, h]
+
+theorem dropChanTx_shape (w : World) (c : Nat) (ch : Chan) (h : w.chan c = some ch) :
+    ∃ wk, w.dropChanTx c =
+      { w with chans := setAssoc c { ch with txAlive := false, reg := false } w.chans, woken := wk } := by
+  simp only [dropChanTx, h]
+  split
+  · obtain ⟨wk, e⟩ := wake_shape (w.setChan c { ch with txAlive := false, reg := false }) (.st c)
+    exact ⟨wk, by rw [e]; rfl⟩
+  · exact ⟨w.woken, rfl⟩
+
+theorem sendSlot_chans (w : World) (s : Nat) (v : SlotVal) :
+    (w.sendSlot s v).chans = w.chans ∧ (w.sendSlot s v).out = w.out := by
+  unfold sendSlot
+  split
+  · simp only []
+    split
+    · obtain ⟨wk, e⟩ := wake_shape (w.setSlot s (.full v)) (.op (s / 2))
+      rw [e]; exact ⟨rfl, rfl⟩
+    · exact ⟨rfl, rfl⟩
+  · exact ⟨rfl, rfl⟩
+
+theorem sendSlot_shape (w : World) (s : Nat) (v : SlotVal) (h : w.slot s = some .empty) :
+    ∃ wk sr, w.sendSlot s v = { w with slots := setAssoc s (.full v) w.slots, woken := wk, slotReg := sr } := by
+  simp only [sendSlot, h]
+  split
+  · obtain ⟨wk, e⟩ := wake_shape (w.setSlot s (.full v)) (.op (s / 2))
+    exact ⟨wk, _, by rw [e]; rfl⟩
+  · exact ⟨w.woken, w.slotReg, rfl⟩
+
+theorem sendSlot_noop (w : World) (s : Nat) (v : SlotVal) (h : w.slot s ≠ some .empty) : w.sendSlot s v = w := by
+  unfold sendSlot
+  split
+  · next h' => exact absurd h' h
+  · rfl
+
+theorem dropSlotTx_chans (w : World) (s : Nat) :
+    (w.dropSlotTx s).chans = w.chans ∧ (w.dropSlotTx s).out = w.out := by
+  unfold dropSlotTx
+  split
+  · simp only []
+    split
+    · obtain ⟨wk, e⟩ := wake_shape (w.setSlot s .closed) (.op (s / 2))
+      rw [e]; exact ⟨rfl, rfl⟩
+    · exact ⟨rfl, rfl⟩
+  · exact ⟨rfl, rfl⟩
+
+theorem flushWire_chans (w : World) : w.flushWire.chans = w.chans := by
+  unfold flushWire; split <;> rfl
+
+theorem writeBytes_chans (w : World) (bs : Bytes) : (w.writeBytes bs).chans = w.chans := by
+  unfold writeBytes; split <;> rw [flushWire_chans]
+
+/-! ### `pollStream`, case by case -/
+
+theorem pollStream_noop (w : World) (id : Nat) (h : id ∉ w.streams ∨ w.chan id = none) : w.pollStream id = w := by
+  unfold pollStream
+  rcases h with h | h
+  · simp [h]
+  · split
+    · rfl
+    · simp [h]
+
+theorem pollStream_item (w : World) (id : Nat) (ch : Chan) (p : PublishRx) (rest : List PublishRx)
+    (hs : id ∈ w.streams) (hc : w.chan id = some ch) (hb : ch.buf = p :: rest) :
+    ∃ wk, w.pollStream id =
+      { w with chans := setAssoc id { ch with buf := rest } w.chans, out := w.out ++ [.item id p], woken := wk } := by
+  obtain ⟨wk, e⟩ := wake_shape ((w.setChan id { ch with buf := rest }).emit (.item id p)) (.st id)
+  refine ⟨wk, ?_⟩
+  simp only [pollStream, hs, not_true_eq_false, if_false, hc, hb]
+  rw [e]; rfl
+
+theorem pollStream_pending (w : World) (id : Nat) (ch : Chan)
+    (hs : id ∈ w.streams) (hc : w.chan id = some ch) (hb : ch.buf = []) (ht : ch.txAlive = true) :
+    w.pollStream id = { w with chans := setAssoc id { ch with reg := true } w.chans } := by
+  simp only [pollStream, hs, not_true_eq_false, if_false, hc, hb, ht, if_true]; rfl
+
+theorem pollStream_end (w : World) (id : Nat) (ch : Chan)
+    (hs : id ∈ w.streams) (hc : w.chan id = some ch) (hb : ch.buf = []) (ht : ch.txAlive = false) :
+    w.pollStream id =
+      { w with streams := w.streams.filter (· ≠ id), chans := eraseFirst id w.chans,
+               out := w.out ++ [.endStream id] } := by
+  simp only [pollStream, hs, not_true_eq_false, if_false, hc, hb, ht]; rfl
+
+/-! ### `resumeOp` / `pollOp` / `dropOp` and the channels -/
+
+theorem resumeOp_chans (w : World) (id s : Nat) (k : Wait) (v : SlotVal) : (w.resumeOp id s k v).chans = w.chans := by
+  have panic : (({ (w.clearSlot s) with ops := eraseFirst id (w.clearSlot s).ops }).emit
+      (.panic (.op id) "unreachable") |>.senderGone).chans = w.chans := by
+    obtain ⟨wk, qr, e⟩ := senderGone_shape
+      (({ (w.clearSlot s) with ops := eraseFirst id (w.clearSlot s).ops }).emit (.panic (.op id) "unreachable"))
+    rw [e]; rfl
+  cases v with
+  | errSize => simp [resumeOp, clearSlot]
+  | errQuota => simp [resumeOp, clearSlot]
+  | unit => cases k <;> simp [resumeOp, clearSlot]
+  | pkt p =>
+    cases k <;> cases p <;>
+      first
+      | exact panic
+      | (simp only [resumeOp, ackErr]; split <;> simp [clearSlot]; done)
+      | (simp [resumeOp, clearSlot]; done)
+      | skip
+    next a =>
+      by_cases h : a.reason ≥ 128
+      · simp [resumeOp, ackErr, h, clearSlot]
+      · have e0 : w.resumeOp id s .pubrec (.pkt (.pubrec a)) =
+            (w.clearSlot s).sendAwait (.awaitAck (actionId 7 a.packetId) (ackBytes 0x62 a.packetId) (s + 1))
+              id (s + 1) .pubcomp := by
+          simp only [resumeOp, h, if_false]; rfl
+        rw [e0]; simp [clearSlot]
+
+theorem startOp_chans (w : World) (id : Nat) (req : Req) :
+    (w.startOp id req).chans = w.chans ∨ (w.startOp id req).chans = setAssoc id {} w.chans ∨
+    (w.startOp id req).chans = eraseFirst id (setAssoc id {} w.chans) := by
+  cases req with
+  | publish t =>
+    left
+    by_cases hq : t.qos = 0
+    · rw [startOp_publish0 w id t hq]; split <;> simp
+    · rw [startOp_publish12 w id t hq]; split <;> simp [allocPid]
+  | subscribe t =>
+    rw [startOp_subscribe]
+    simp only []
+    split
+    · left; simp [allocPid, allocSub]
+    · split
+      · right; right; simp [allocPid, allocSub, dropChanRx, setChan]
+      · next w' hs =>
+        by_cases hc : w.hasCtx = true
+        · obtain ⟨wk, qr, e⟩ := sendMsg_shape (((w.allocPid.2).allocSub.2).setChan id {})
+            (.subscribe (actionId 9 w.pidCtr) w.subCtr
+              ({ t with packetId := w.pidCtr, subId := some w.subCtr } : SubscribeTx).encode (2 * id) id) hc
+          rw [e] at hs; cases hs
+          right; left; rfl
+        · rw [sendMsg_none _ _ (by simpa [setChan, allocPid, allocSub] using hc)] at hs; cases hs
+  | unsubscribe t => left; rw [startOp_unsubscribe]; split <;> simp [allocPid]
+  | ping => left; rw [startOp_ping]; simp
+  | disconnect t => left; rw [startOp_disconnect]; simp
+
+theorem pollOp_chans (w : World) (id : Nat) :
+    (w.pollOp id).chans = w.chans ∨ (w.pollOp id).chans = setAssoc id {} w.chans ∨
+    (w.pollOp id).chans = eraseFirst id (setAssoc id {} w.chans) := by
+  unfold pollOp
+  split
+  · left; rfl
+  · exact startOp_chans w id _
+  · split
+    · left; exact resumeOp_chans w id _ _ _
+    · left; simp [clearSlot]
+    · left; rfl
+
+theorem dropOp_chans (w : World) (id : Nat) :
+    (w.dropOp id).chans = w.chans ∨ (w.dropOp id).chans = eraseFirst id w.chans := by
+  unfold dropOp
+  split
+  · left; rfl
+  · left
+    obtain ⟨wk, qr, e⟩ := senderGone_shape ({ w with ops := eraseFirst id w.ops })
+    rw [e]
+  · next s k _ =>
+    cases k <;> simp only [] <;>
+      first
+      | (left
+         obtain ⟨wk, qr, e⟩ := senderGone_shape ({ (w.clearSlot s) with ops := eraseFirst id (w.clearSlot s).ops })
+         rw [e]; rfl)
+      | (right
+         obtain ⟨wk, qr, e⟩ := senderGone_shape
+           ({ ((w.clearSlot s).dropChanRx id) with ops := eraseFirst id ((w.clearSlot s).dropChanRx id).ops })
+         rw [e]; rfl)
+
+end User
 end Poster
